@@ -374,6 +374,12 @@ func attempt(c Case) outcome {
 			holds++
 		}
 	}
+	if eff == 0 && done >= base {
+		// nothing was lost, duplicated, delayed or reordered: no retransmission timer is needed, the
+		// handshake completes in the round trips themselves (virtual time does not advance for those)
+		return outcome{status: "slow", who: "both", sig: "no-fault-needs-a-timer", eff: eff, plan: plan,
+			msg: fmt.Sprintf("completed at %v on a network that disturbed nothing: a retransmission timer (interval %v) had to fire\n%s", done, base, tail(p.Dump(), 40))}
+	}
 	if b := bound(eff, base, holds); done > b {
 		return outcome{status: "slow", who: "both", sig: faultSig(plan), eff: eff, plan: plan,
 			msg: fmt.Sprintf("completed at %v, bound for %d faults is %v\n%s", done, eff, b, tail(p.Dump(), 40))}
